@@ -268,7 +268,7 @@ def check_vt(rec, rng):
             return
         back = v.VerificationTrailer.unpack(got + rng.randbytes(rng.choice([0, 0, 3, 16])))
         if sem(back) != sem(obj):
-            rec.violation("vt-fields", f"{sem(back)!r:.300} vs {sem(obj)!r:.300}", wit)
+            rec.violation("vt-fields", f"{sem(back)!r:.3000} vs {sem(obj)!r:.3000}", wit)
             return
         if back.pack() != got:
             rec.violation("vt-repack", "unpack(pack(m)).pack() != m.pack()", wit)
